@@ -25,6 +25,8 @@ type progCase struct {
 	NQ     int
 	Budget int
 	Kind   string
+	DS     string                                   // Coq expression of the relation table ("" = hdefs)
+	Check  func(c progCase, o *ProgObs) []string    // extra direct oracle on the observation (runs in the parent)
 }
 
 // ProgObs is what a worker observes of one program.
@@ -34,6 +36,7 @@ type ProgObs struct {
 	Closed  bool     `json:"closed"`
 	Answers []string `json:"answers"` // reified query vector per answer, in stream order
 	Extends bool     `json:"extends"`
+	Resolved [][]string `json:"resolved"` // per answer: each query variable fully resolved, printed with showTerm
 	Notes   []string `json:"notes"` // oracle failures detected in the worker (prefix, determinism, expansions)
 }
 
@@ -93,7 +96,7 @@ func genProgCases(cfg *Config, flavour string) []progCase {
 	r := newRand(cfg.Seed)
 	cases := []progCase{}
 	for _, g := range fixedProgs() {
-		cases = append(cases, progCase{g, 1, 40, "fixed"})
+		cases = append(cases, progCase{G: g, NQ: 1, Budget: 40, Kind: "fixed"})
 	}
 	pg := &progGen{r: r, allowNon: flavour != "C03", rels: []int{0, 1, 2, 3, 4, 5, 6, 7, 8, 9, 10, 11}}
 	for len(cases) < cfg.N {
@@ -150,7 +153,7 @@ func genProgCases(cfg *Config, flavour string) []progCase {
 		default:
 			g = pg.goal(2+r.Intn(9), nq)
 		}
-		cases = append(cases, progCase{g, nq, 30 + r.Intn(30), kind})
+		cases = append(cases, progCase{G: g, NQ: nq, Budget: 30 + r.Intn(30), Kind: kind})
 	}
 	return cases[:cfg.N]
 }
@@ -205,6 +208,11 @@ func observeProg(c progCase) *ProgObs {
 	q := queryVec(c.NQ)
 	for _, st := range tr.States {
 		o.Answers = append(o.Answers, canonVecTerm(micro.VerifWalkStar(q, st.Substitutions)))
+		res := make([]string, c.NQ)
+		for i := 0; i < c.NQ; i++ {
+			res[i] = showTerm(micro.VerifWalkStar(micro.Var(uint64(i)), st.Substitutions))
+		}
+		o.Resolved = append(o.Resolved, res)
 		if st.Counter < st0.Counter {
 			o.Extends = false
 		}
@@ -264,7 +272,15 @@ func observeProg(c progCase) *ProgObs {
 }
 
 func runProgs(cfg *Config, flavour string) *Report {
-	cases := genProgCases(cfg, flavour)
+	var cases []progCase
+	switch flavour {
+	case "C13":
+		cases = genLibCases(cfg, "mini")
+	case "C19":
+		cases = genLibCases(cfg, "peano")
+	default:
+		cases = genProgCases(cfg, flavour)
+	}
 	obsFn := func(i int) string {
 		b, _ := json.Marshal(observeProg(cases[i]))
 		return string(b)
@@ -274,7 +290,7 @@ func runProgs(cfg *Config, flavour string) *Report {
 	}
 	rep := newReport()
 	rep.Rule = "fixed shapes (finite/infinite/silent branches in every position, contradictory constraints, recursion bounded only by laziness) + random goal programs of size 2..10 over 12 guarded recursive relations, 1-2 query variables; observed: cell trace under a force budget, take(n) for n=0..4,-1, second run, macro expansion; non-trivial = the trace contains at least one suspension and one answer, or the program calls a recursive relation; distinct by printed program"
-	cf := newCaseFile("From Coq Require Import List NArith ZArith.\nFrom GMK Require Import Term Unify Goal Stream CorrBase Corr01 Corr02.", "caseP", "checkP")
+	cf := newCaseFile("From Coq Require Import List NArith ZArith.\nFrom GMK Require Import Term Unify Goal Stream CorrBase Corr01 Corr02.\nFrom GMK.gen Require Import RelMini RelPeano.", "caseP", "checkP")
 	cf.b.WriteString(coqRelLib())
 	iso := isolate(flavour, cfg, len(cases), 40, 300*time.Millisecond)
 	for i, c := range cases {
@@ -296,7 +312,7 @@ func runProgs(cfg *Config, flavour string) *Report {
 				rep.hist("skipped")
 				continue
 			}
-			cf.add(fmt.Sprintf("CaseP hdefs %s %d %d [ODiverge]", c.G.coq(), c.NQ, c.Budget))
+			cf.add(fmt.Sprintf("CaseP %s %s %d %d [ODiverge]", dsOf(c), c.G.coq(), c.NQ, c.Budget))
 			rep.CaseDesc = append(rep.CaseDesc, desc)
 			rep.CaseObs = append(rep.CaseObs, "the implementation does not return: "+reason)
 			rep.hist("diverged")
@@ -313,7 +329,12 @@ func runProgs(cfg *Config, flavour string) *Report {
 			rep.CaseObs = append(rep.CaseObs, "")
 			continue
 		}
-		cf.add(fmt.Sprintf("CaseP hdefs %s %d %d %s", c.G.coq(), c.NQ, c.Budget, coqList(o.Coq)))
+		cf.add(fmt.Sprintf("CaseP %s %s %d %d %s", dsOf(c), c.G.coq(), c.NQ, c.Budget, coqList(o.Coq)))
+		if c.Check != nil {
+			for _, n := range c.Check(c, &o) {
+				rep.violate(i, "relation-spec", desc, n+"; trace "+strings.Join(o.Show, " "))
+			}
+		}
 		obs := strings.Join(o.Show, " ")
 		rep.CaseDesc = append(rep.CaseDesc, desc)
 		rep.CaseObs = append(rep.CaseObs, obs)
@@ -324,7 +345,7 @@ func runProgs(cfg *Config, flavour string) *Report {
 				hasS = true
 			}
 		}
-		if hasS && hasA || strings.Contains(c.G.show(), "o ") || strings.Contains(c.G.show(), "(fives") {
+		if hasS && hasA || strings.Contains(c.G.show(), "o ") || strings.Contains(c.G.show(), "(fives") || c.DS != "" {
 			rep.nontrivial(c.G.show())
 		}
 		rep.hist(fmt.Sprintf("answers=%d", min(len(o.Answers), 5)))
@@ -370,6 +391,13 @@ func runProgs(cfg *Config, flavour string) *Report {
 	}
 	cf.write(cfg.Out)
 	return rep
+}
+
+func dsOf(c progCase) string {
+	if c.DS == "" {
+		return "hdefs"
+	}
+	return c.DS
 }
 
 func keysOf(m map[string]int) []string {
